@@ -165,7 +165,12 @@ def gen_case(rng, tier, with_classes=False):
 
 def generate(rng, tier):
     n = 90 if tier == "quick" else 1200
-    return [gen_case(rng, tier) for _ in range(n)]
+    cases = [gen_case(rng, tier) for _ in range(n)]
+    for c in cases:
+        # a quarter of the cases re-use the object with another k (set through the public setter)
+        if c["n"] >= 2 and rng.random() < 0.25:
+            c["k2"] = rng.choice([k for k in range(1, c["n"] + 1) if k != c["k"]])
+    return cases
 
 
 # ------------------------------------------------------------------------------------------ helpers
@@ -377,7 +382,12 @@ def run_impl(case):
     Q = np.array(case["qs"], dtype=np.float32).reshape([nq] + case["shape"])
     QT = np.array(case["qtargets"], dtype=np.float32) if case["qtargets"] is not None else None
     out = se.explain(Q, QT)
-    return collect(case, out, nq)
+    res = collect(case, out, nq)
+    if case.get("k2"):
+        # "for every k": k changed through the public setter on the SAME object, then explain again
+        se.k = int(case["k2"])
+        res["second"] = collect(dict(case, k=case["k2"]), se.explain(Q, QT), nq)
+    return res
 
 
 # ------------------------------------------------------------------------------------------ Coq encoding
@@ -492,8 +502,15 @@ def _coq_term(case, res):
     slots = cslots(case, res)
     if slots is None or not shape_ok(case, res):
         return "false"
-    return ("check_similar {d} {tol} {sp} {wk} {k} {bs} {cases} {targets} {labels} {qs} {tqs} {slots}"
+    term = ("check_similar {d} {tol} {sp} {wk} {k} {bs} {cases} {targets} {labels} {qs} {tqs} {slots}"
             .format(tol=TOL, slots=slots, **a))
+    if case.get("k2"):
+        c2 = dict(case, k=case["k2"], k2=None)
+        if "second" not in res:
+            return "false"
+        t2 = _coq_term(c2, res["second"])
+        return f"({term} && {t2})"
+    return term
 
 
 def dump_term(case, res):
